@@ -403,6 +403,11 @@ def prove_connect_to_peer(src_root, ex: Explorer):
         w = mk_network(it, ctx)
         oc = outcomes[ctx.choose(3, 'outcome')]
         created, order = [], []
+        # which ports the peer announced and what we prefer (select_port: C11.select_port.table)
+        has_clear, has_obf = [(True, False), (False, True), (True, True)][ctx.choose(3, 'ports')]
+        prefer = ctx.choose(2, 'prefer-obfuscated') == 1
+        w.net.attrs['_settings'].attrs['network'].attrs['peer'].attrs['obfuscate'] = prefer
+        m_port, m_oport = (10 if has_clear else 0), (20 if has_obf else 0)
 
         def c_connect(it2, f, a, k):
             conn = a[0]
@@ -431,8 +436,8 @@ def prove_connect_to_peer(src_root, ex: Explorer):
             return A.SimpleAwaitable(it2.aio, 'send_message', body)
         it.hooks[f'{CONN}:DataConnection.send_message'] = c_send
         it.hooks[f'{CONN}:PeerConnection.set_connection_state'] = lambda it2, f, a, k: a[0].attrs.__setitem__('connection_state', a[1])
-        msg = new(it, MSG, 'ConnectToPeer.Response', username='bob', typ='P', ip='1.2.3.4', port=10, ticket=55, privileged=False,
-                  obfuscated_port_amount=None, obfuscated_port=None)
+        msg = new(it, MSG, 'ConnectToPeer.Response', username='bob', typ='P', ip='1.2.3.4', port=m_port, ticket=55, privileged=False,
+                  obfuscated_port_amount=1 if has_obf else None, obfuscated_port=m_oport if has_obf else None)
         try:
             run(it, it.getattr(w.net, '_handle_connect_to_peer'), msg)
             raised = None
@@ -448,6 +453,11 @@ def prove_connect_to_peer(src_root, ex: Explorer):
                       and raised == 'PeerConnectionError' and not w.registry,
                       'when connecting back fails the server must be told CannotConnect(ticket, user) exactly once and nothing stays registered')
         ctx.prove(f'C10.registry.add#_handle_connect_to_peer[{oc}]', order and order[0][1] is True)
+        # the connection is made to the port select_port chose, and speaks obfuscated exactly if that is the obfuscated port
+        want = (20, True) if (has_obf and (prefer or not has_clear)) else (10, False)
+        got = (created[0].attrs.get('port'), created[0].attrs.get('obfuscated')) if created else None
+        ctx.prove(f'C11.connect_to_peer.port-and-obfuscation[clear={has_clear},obfuscated={has_obf},prefer={prefer}]', got == want,
+                  f'connecting back to (port, obfuscated) = {got}, the announced ports and the preference select {want}: the peer reads garbage')
     ex.run(path, 'connect_to_peer')
 
 
@@ -532,8 +542,20 @@ def prove_address_and_state(src_root, ex: Explorer):
     ex.run(conn_state, 'connection-state')
 
 
+def prove_connect_relies(src_root, ex: Explorer):
+    """The strategies tell "this path does not work" (ConnectionFailedError -> try the other path) from "the request was cancelled"
+    (CancelledError -> stop, leave nothing behind) by what connect() raises.  That is the exit contract of DataConnection.connect (C10),
+    discharged here as well: every failure kind of the TCP connect becomes ConnectionFailedError, a cancellation stays a cancellation,
+    and either way the connection ends CLOSED and unregistered."""
+    from contracts import C10
+    C10.prove_connect(src_root, ex)
+    for ob in ex.obligations:
+        if ob.name.startswith('C10.'):
+            ob.name = 'C11.connect-contract.' + ob.name[4:]
+
+
 def items(src_root, tier):
-    return [('address-state', None), ('indirect', None), ('direct', None), ('fallback', None), ('race', None), ('select_port', None), ('connect_to_peer', None), ('pierce', None)]
+    return [('connect-relies', None), ('address-state', None), ('indirect', None), ('direct', None), ('fallback', None), ('race', None), ('select_port', None), ('connect_to_peer', None), ('pierce', None)]
 
 
 def run_item(src_root, item, tier):
@@ -542,7 +564,8 @@ def run_item(src_root, item, tier):
     kind, arg = item
     try:
         {'indirect': prove_indirect, 'direct': prove_direct, 'fallback': prove_fallback, 'race': prove_race, 'select_port': prove_select_port,
-         'connect_to_peer': prove_connect_to_peer, 'pierce': prove_pierce, 'address-state': prove_address_and_state}[kind](src_root, ex)
+         'connect_to_peer': prove_connect_to_peer, 'pierce': prove_pierce, 'address-state': prove_address_and_state,
+         'connect-relies': prove_connect_relies}[kind](src_root, ex)
     except Unsupported as e:
         res.errors.append(f'{kind}: unsupported: {e}')
     collect(res, ex)
